@@ -192,7 +192,86 @@ def rule_d(ctx, h, ex, other):
         ctx.check(fb and ("call", fb[0][0]) in pd, rid, "fallback-from-guard", "the chained fallback is the one read through the fallback guard", t["sp"], sorted(map(str, pd))[:8])
 
 
+def rule_e(ctx):
+    """the handler that is chained is exactly the one our handler replaced: it is the old action the installing sigaction call handed back
+    (atomic exchange), not the result of an earlier, separate query"""
+    F = ctx.F
+    rid = "C04.e"
+    ctx.rule(rid, "the previous disposition stored in the slot is the `oldact` written by the installing sigaction call itself (non-null out "
+                  "parameter), so no foreign handler installed in between is lost", floor=2)
+    from ..flow import partial_fields
+    for ins in installers(F):
+        ctx.fn(ins)
+        fl = flow(ins)
+        calls = [(bb, t) for bb, t, c in call_sites(F, ins, foreign("sigaction"))]
+        inst_calls = []
+        for bb, t in calls:
+            newp = [deep_strip(e) for e in fl.term_arg(bb, 1)]
+            if all(e[0] == "call" and (e[3] or "").startswith("core::ptr::null") for e in newp):
+                continue
+            inst_calls.append((bb, t))
+        if len(inst_calls) != 1:
+            raise AnchorLost("installing sigaction call in %s" % ins.name)
+        bb, t = inst_calls[0]
+        old = [deep_strip(e) for e in fl.term_arg(bb, 2)]
+        isnull = all((e[0] == "call" and (e[3] or "").startswith("core::ptr::null")) or fold(e) == 0 for e in old)
+        oloc = None
+        for e in old:
+            x = e
+            while x[0] in ("ref", "cast"):
+                x = deep_strip(x[1])
+            if x[0] in ("partial",):
+                oloc = x[1]
+            elif x[0] == "call" and (x[3] or "").endswith("mem::zeroed"):
+                # `&mut old` where old = zeroed(): find the local
+                for l, ty in enumerate(ins.body["locals"]):
+                    pass
+        # the local whose address is passed: take it from the raw operand
+        a2 = t["args"][2]
+        oldlocal = None
+        if a2["k"] in ("copy", "move") and not a2["p"]["p"]:
+            # _21 = &raw (*_22); _22 = &mut _14
+            cur = a2["p"]["l"]
+            for _ in range(6):
+                nxt = None
+                for bl in ins.blocks:
+                    for st in bl["s"]:
+                        if st["k"] == "assign" and not st["l"]["p"] and st["l"]["l"] == cur and st["r"]["k"] in ("ref", "rawptr"):
+                            pl = st["r"]["p"]
+                            nxt = (pl["l"], [p["k"] for p in pl["p"]])
+                if nxt is None:
+                    break
+                if nxt[1] == []:
+                    oldlocal = nxt[0]; break
+                cur = nxt[0]
+        ctx.check(not isnull and oldlocal is not None, rid, "install-returns-old@%s" % keyname(ins.name), "the installing sigaction call receives a non-null `oldact` out parameter", t["sp"],
+                  [show(e) for e in old])
+        if oldlocal is None:
+            continue
+        # the Prev stored in the Slot takes its `info` from that local
+        okk = False; found = []
+        for abb, bl in enumerate(ins.blocks):
+            for si, st in enumerate(bl["s"]):
+                if st["k"] == "assign" and st["r"]["k"] == "aggregate" and st["r"].get("def") == "signal_hook_registry::Prev":
+                    fi = st["r"]["fields"].index("info")
+                    op = st["r"]["ops"][fi]
+                    src = op["p"]["l"] if op["k"] in ("copy", "move") else None
+                    # follow plain copies
+                    for _ in range(4):
+                        for bl2 in ins.blocks:
+                            for st2 in bl2["s"]:
+                                if st2["k"] == "assign" and not st2["l"]["p"] and st2["l"]["l"] == src and st2["r"]["k"] == "use" and st2["r"]["o"].get("p") and not st2["r"]["o"]["p"]["p"]:
+                                    src = st2["r"]["o"]["p"]["l"]
+                    found.append(src)
+                    if src == oldlocal and abb in cfg.reachable_after(ins, bb, unwind=False):
+                        okk = True
+        slot_prev_ok = okk
+        ctx.check(slot_prev_ok, rid, "slot-prev-is-exchanged@%s" % keyname(ins.name), "Slot.prev.info is the structure the installing call filled in", ins.span,
+                  {"prev_info_from_local": found, "oldact_local": oldlocal, "why": "a handler installed by another thread between a separate query and the install would never be chained"})
+
+
 def run(ctx):
+    ctx.guarded("C04.e", rule_e)
     r = ctx.guarded("C04.a", rule_a)
     if r:
         h, ex, slot_call, other = r
